@@ -130,3 +130,11 @@ chk('C08', 'model_checking',
     'sibling clusters are disjoint and no foreign node lies inside a cluster\'s member box. Runs biased to heavy overlap, coincident and nested rectangles, exemption groups, two rectangular clusters with padding/margin.',
     'Rectangular clusters, one level. Runs with reported constraints are counted, not judged (the statement\'s antecedent).',
     'TLA+ declarative non-overlap/containment semantics; record validation of layout runs', '4/C08')
+
+chk('C20', 'model_checking',
+    'Determinism.tla judges recorded pairs: the same call sequence twice with unrelated work and allocations in between must give bit-identical raw and displayed routes and solver positions (doubles recorded as '
+    'limb triples, tuple equality = bit equality) and layout positions within 1e-9; a scene/problem translated by k*2^-10 must give the raw route translated exactly (lattice arithmetic) and displayed/solver results '
+    'within 1e-9; under each of the 7 non-identity symmetries of the square every connector keeps its raw-route cost (exact integers for orthogonal, integer-square-root intervals for polyline). '
+    'Independence of VPSC results from ids/order is decided in C02 (permuted and reversed copies against one oracle optimum).',
+    'Same process only. Option nudgeOrthogonalSegmentsConnectedToShapes (F13) switched off. Fixed-relative constraints left out of the layout repeats (F31).',
+    'TLA+ record specification with bit-exact limb comparison and exact lattice translation', '4/C20')
